@@ -177,7 +177,21 @@ class World:
         finally:
             asyncio.set_event_loop(None)
 
+    def adopt_asyncio_run(self) -> None:
+        """Serve asyncio.run() (used by the CLI) with virtual loops that share this world's network."""
+        world = self
+
+        def make():
+            loop = VLoop(world.net)
+            world.loop = loop
+            return loop
+        self._old_policy = asyncio.get_event_loop_policy()
+        asyncio.set_event_loop_policy(VPolicy(make))
+
     def close(self) -> None:
+        if getattr(self, "_old_policy", None) is not None:
+            asyncio.set_event_loop_policy(self._old_policy)
+            self._old_policy = None
         _CUR[0] = None
         try:
             # cancel whatever is left so nothing leaks into the next execution
